@@ -117,6 +117,10 @@ pub fn exec(op: &str, a: &[u64]) -> Result<Outcome, String> {
             let x = if norm { mean_normalized_edit_distance(&a, &b, g) } else { mean_edit_distance(&a, &b, g) }.map_err(|e| e.to_string())?;
             let mut o = Outcome::new(if x.is_nan() { "ok f:nan".into() } else { format!("ok f:{x:e}") });
             o.check(x.is_finite() && x >= 0.0, "mean edit distance not finite");
+            // the defining formula: the mean of the pairwise distances of the prepared texts (each pair evaluated alone,
+            // summed in order; the parallel sum of the code may round differently in the last bits)
+            let want = a.iter().zip(&b).map(|(s, t)| text_utils::edit::distance(&prep_med(s), &prep_med(t), g, false, false, norm)).sum::<f64>() / a.len().max(1) as f64;
+            o.check(x.is_nan() || want.is_nan() || (x - want).abs() <= 1e-9 * want.abs().max(1.0), "mean edit distance != mean of the pairwise distances");
             if norm {
                 o.check(x <= 1.0 || !x.is_finite(), "mean normalised edit distance outside [0,1]");
             }
@@ -313,7 +317,54 @@ const BETAS: [(u64, u64); 4] = [(0, 1), (1, 2), (1, 1), (2, 1)];
 /// characters whose NFKC form contains a space (D12 stream)
 const NFKC_SPACE: [char; 5] = ['\u{a8}', '\u{af}', '\u{b4}', '\u{b8}', '\u{2017}'];
 
+/// long lists (the functions process the sequences in parallel; block-wise processing must not lose or misalign
+/// the last, shorter block): just above 1024, not a multiple of a power of two
+fn long_lists(ctx: &mut Ctx) {
+    let sizes: &[usize] = if ctx.thorough { &[1025, 1030, 2049, 4100] } else { &[1025, 2050] };
+    let ws = ["a", "b", "ab", "ba", "c", ""];
+    for (j, &n) in sizes.iter().enumerate() {
+        let g = j % 2 == 0;
+        // mean (normalised) edit distance over n pairs of very short, non-periodic texts
+        let pairs: Vec<(String, String)> = (0..n).map(|_| (ws[ctx.rng.random_range(0..6)].to_string(), ws[ctx.rng.random_range(0..6)].to_string())).collect();
+        for norm in [0u64, 1] {
+            let mut v = vec![g as u64, norm, n as u64];
+            for (a, b) in &pairs {
+                for x in [a, b] {
+                    enc_str(&mut v, x);
+                    v.extend(enc_text(&prep_med(x), g));
+                }
+            }
+            ctx.case("med", &v);
+        }
+        // accuracy / binary F1 over n labels
+        let mut v = vec![];
+        enc_nats(&mut v, (0..n).map(|_| ctx.rng.random_range(0..2)));
+        enc_nats(&mut v, (0..n).map(|_| ctx.rng.random_range(0..2)));
+        ctx.case("acc", &v);
+        v.extend([1, 1]);
+        ctx.case("binf1", &v);
+        // spelling / whitespace correction over n one- or two-word sequences
+        let ts: Vec<(String, String, String)> = (0..n)
+            .map(|_| {
+                let t = format!("{} {}", ws[ctx.rng.random_range(0..5)], ws[ctx.rng.random_range(0..5)]);
+                let i = if ctx.rng.random_bool(0.5) { t.clone() } else { format!("{} {}", ws[ctx.rng.random_range(0..5)], ws[ctx.rng.random_range(0..5)]) };
+                let p = if ctx.rng.random_bool(0.5) { t.clone() } else { i.clone() };
+                (i, p, t)
+            })
+            .collect();
+        for sa in [0u64, 1] {
+            let mut v = vec![g as u64, sa, 1, 1];
+            enc_triples(&mut v, &ts, g);
+            enc_spell_subs(&mut v, &ts, g);
+            ctx.case("spellf1", &v);
+        }
+    }
+}
+
 pub fn run_c13(ctx: &mut Ctx) {
+    if ctx.first_shard() {
+        long_lists(ctx);
+    }
     let n = ctx.budget(500, 30000);
     for i in 0..n {
         let (bn, bd) = BETAS[ctx.rng.random_range(0..4)];
